@@ -920,6 +920,10 @@ FORBIDDEN = {
     'shutil.rmtree', 'shutil.move', 'os.truncate', 'os.ftruncate', 'builtins.open', 'os.fdopen', 'os.utime',
     'os.path.exists', 'os.path.isfile', 'os.stat', 'os.access', 'os.lstat', 'os.path.getmtime', 'tempfile.mkstemp',
 }
+#: the held descriptor must stay the close-on-exec descriptor os.open() returned (PEP 446): a duplicate
+#: or an inheritable descriptor survives the holder's death inside a child process and keeps the flock
+FORBIDDEN |= {'os.dup', 'os.dup2', 'os.set_inheritable', 'fcntl.fcntl', 'os.fork', 'os.forkpty', 'os.openpty',
+              'os.spawnl', 'os.spawnv', 'os.posix_spawn', 'subprocess.Popen', 'subprocess.run', 'os.system'}
 FORBIDDEN_METHODS = {'unlink', 'rename', 'replace', 'touch', 'write_text', 'write_bytes', 'exists', 'is_file',
                      'rmdir', 'mkdir', 'symlink_to', 'hardlink_to'}
 
@@ -927,7 +931,7 @@ CONTROL_SNIPPET = '''
 import os, atexit
 from pathlib import Path
 def _release(self):
-    os.close(self.fd)
+    os.close(os.dup(self.fd))
     os.remove(self._lock_file)
     Path(self._lock_file).unlink()
     atexit.register(self.release)
@@ -960,14 +964,14 @@ def c13(ctx: Ctx) -> None:
     u = r.unit
     ctx.trusted += ['the kernel releases flock()/locking() locks when the owning process dies',
                     'C02-R3/R4/R5 (checked under C02) for exclusion among survivors']
-    ctx.rule('C13-R1', 'no soft-lock / clean-up machinery in filelock.py: no unlink/rename/pid-file/atexit/signal/exists calls', 1)
+    ctx.rule('C13-R1', 'no soft-lock / clean-up machinery in filelock.py: no unlink/rename/pid-file/atexit/signal/exists calls, no duplication or inheritance of the held descriptor', 1)
     ctx.rule('C13-R2', 'the open mode creates the file and never uses O_EXCL; existence never decides the outcome', 1)
     ctx.rule('C13-R3', 'exclusion is established only by kernel primitives released at process death (flock / msvcrt.locking)', 2)
     ctx.rule('C13-R4', 'the lock file is never deleted', 1)
     # positive control
     ctl = soft_lock_hits(ast.parse(CONTROL_SNIPPET), {'os': 'os', 'atexit': 'atexit'})
-    if len(ctl) < 6:
-        raise AnalysisError(f'C13 positive control matched only {len(ctl)} of 6 forbidden calls')
+    if len(ctl) < 7:
+        raise AnalysisError(f'C13 positive control matched only {len(ctl)} of 7 forbidden calls')
     ctx.extra['positive_control_hits'] = len(ctl)
     units = list(p.units.values()) if ctx.thorough else [u]
     for unit in units:
